@@ -94,8 +94,11 @@ type plannedOp struct {
 	// elections of all its shards over one lease client): Sib = kind of that call ("" = none)
 	Sib     string `json:"sibling_shard_call,omitempty"`
 	sibKind opKind
-	kind    opKind
-	fault   leasestore.Fault
+	// the call is made with a deadline (cmd/syncer.go bounds election calls by leaseRenewInterval) and
+	// the store answers it late: the reply arrives after the deadline
+	LateReply bool `json:"reply_after_deadline,omitempty"`
+	kind      opKind
+	fault     leasestore.Fault
 }
 
 type planStep struct {
@@ -238,6 +241,28 @@ func makePlan(r *harness.Run, idx int) *plan {
 			}
 		}
 	}
+	// reply later than the caller's deadline, and the instance's next call re-uses the same election (own PRNG stream)
+	lrng := r.Rand(fmt.Sprintf("late-reply-%d", idx))
+	for si := range p.Steps {
+		for oi := range p.Steps[si].Ops {
+			o := &p.Steps[si].Ops[oi]
+			if o.fault != leasestore.FaultNone || o.StallNth > 0 || lrng.Intn(100) >= 4 {
+				continue
+			}
+			o.LateReply = true
+			o.fault, o.Fault = leasestore.FaultSlowReply, leasestore.FaultSlowReply.String()
+			// the instance's following calls stay on the same cluster client
+		next:
+			for sj := si + 1; sj < len(p.Steps) && sj <= si+3; sj++ {
+				for oj := range p.Steps[sj].Ops {
+					if p.Steps[sj].Ops[oj].C == o.C {
+						p.Steps[sj].Ops[oj].Stale = true
+						continue next
+					}
+				}
+			}
+		}
+	}
 	// concurrent call of the same instance on its election of another shard (own PRNG stream)
 	brng := r.Rand(fmt.Sprintf("sibling-%d", idx))
 	for si := range p.Steps {
@@ -283,12 +308,13 @@ type opRec struct {
 	After   string `json:"store_after"`
 	Reached bool   `json:"reached_store"`
 
-	kind    opKind
-	key     string // lease key of the election the call went to
-	out     modelOut
-	role    cluster.ClusterRole
-	err     error
-	entries []leasestore.Entry
+	kind      opKind
+	lateReply bool
+	key       string // lease key of the election the call went to
+	out       modelOut
+	role      cluster.ClusterRole
+	err       error
+	entries   []leasestore.Entry
 }
 
 type contender struct {
@@ -577,6 +603,7 @@ func (h *history) burst(si int, step *planStep) bool {
 		recs[i] = &opRec{Step: si, C: o.C, ID: c.id, Tag: c.tag, Kind: o.Kind, kind: o.kind, key: h.p.Key, VT: now}
 		if o.fault != leasestore.FaultNone && !c.broken {
 			st.FaultNext(c.tag, o.fault)
+			recs[i].lateReply = o.LateReply
 			recs[i].Fault = o.Fault
 			h.r.Count("fault_"+o.Fault, 1)
 		}
@@ -600,6 +627,11 @@ func (h *history) burst(si int, step *planStep) bool {
 	call := func(rec *opRec, el cluster.Election) {
 		<-start
 		ctx := context.Background()
+		if rec.lateReply {
+			var cancel context.CancelFunc
+			ctx, cancel = context.WithTimeout(ctx, leasestore.SlowReplyDelay/3)
+			defer cancel()
+		}
 		rec.Call = h.lclock.Add(1)
 		switch rec.kind {
 		case kCampaign:
